@@ -36,9 +36,18 @@ class Deflate(object):
             -max(9, self.compress_wbits)
         )
 
-    def reset_decompressor(self):
+    def reset_decompressor(self, window=None):
         """Reset the decompressor for the next frame."""
-        self._decompressobj = zlib.decompressobj(-self.decompress_wbits)
+        if window is None:
+            # Output of previous messages the next one may refer to
+            self._window = b''
+        if window and not PY2:
+            # Carry the sliding window over to the new deflate stream
+            self._decompressobj = zlib.decompressobj(
+                -self.decompress_wbits, window
+            )
+        else:
+            self._decompressobj = zlib.decompressobj(-self.decompress_wbits)
 
     @classmethod
     def from_options(cls, options):
@@ -68,25 +77,39 @@ class Deflate(object):
 
     def decompress(self, frames):
         """Decompress payload, returned decompressed data."""
-        if PY2:
-            data = [
-                self._decompressobj.decompress(bytes(frame.payload))
-                for frame in frames
-            ]
-        else:
-            data = [
-                self._decompressobj.decompress(frame.payload)
-                for frame in frames
-            ]
-
-        data.append(self._decompressobj.decompress(b"\x00\x00\xff\xff"))
+        chunks = [
+            bytes(frame.payload) if PY2 else frame.payload
+            for frame in frames
+        ]
+        chunks.append(b"\x00\x00\xff\xff")
+        data = []
+        for chunk in chunks:
+            while chunk:
+                data.append(self._decompressobj.decompress(chunk))
+                chunk = self._decompressobj.unused_data
+                if chunk:
+                    # The deflate stream ended (the peer sent a block
+                    # with BFINAL set, see RFC 7692 7.2.3.4) and a
+                    # finished decompressor returns no further data. The
+                    # rest is a new stream, which may refer back to what
+                    # was decompressed so far.
+                    self.reset_decompressor(
+                        self._get_window(self._window, data)
+                    )
         payload = b''.join(data)
-        if self.reset_decompress or self._decompressobj.unused_data:
-            # Also start afresh if the deflate stream ended (the peer
-            # sent a block with BFINAL set, see RFC 7692 7.2.3.4),
-            # a finished decompressor returns no further data.
+        if self.reset_decompress:
             self.reset_decompressor()
+        else:
+            self._window = self._get_window(self._window, [payload])
         return payload
+
+    def _get_window(self, window, data):
+        """Get the last bytes of output (the LZ77 sliding window)."""
+        size = 1 << self.decompress_wbits
+        data = b''.join(data)
+        if len(data) >= size:
+            return data[-size:]
+        return (window + data)[-size:]
 
     def compress(self, payload):
         """Compress payload, return compressed data."""
